@@ -92,6 +92,8 @@ package machine
 //@ func StatesDiff(states1 S, states2 S) (ret S)
 //@   props C02 C20
 //@   ensures def:   forall x string :: mem(ret, x) <==> mem(states1, x) && !mem(states2, x)
+//@   ensures lenle: len(ret) <= len(states1)
+//@   ensures full:  len(ret) == len(states1) <==> (forall i int :: 0 <= i && i < len(states1) ==> !mem(states2, states1[i]))
 //@   ensures fresh: fresh(ret)
 //@   ensures nodup: nodup(states1) ==> nodup(ret)
 
@@ -813,3 +815,14 @@ package machine
 //@   assigns *
 //@   ensures  disposing: old(m.disposing) ==> r == Canceled && unchanged(m.queue, m.queueTick, m.activeStates) && mapeq(m.clock, old(m.clock))
 //@   ensures  backoff:   m.Backoff() ==> r == Canceled && unchanged(m.queue, m.queueTick, m.activeStates) && mapeq(m.clock, old(m.clock))
+
+//@ func (t *Transition) setupAccepted()
+//@   props C03 C07
+//@   requires nn:     t.Machine != nil && t.Mutation != nil && t.cacheTargetStates != nil && t.Mutation.cacheCalled != nil
+//@   assigns  t.IsAccepted
+//@   ensures  remove:  t.Mutation.Type == MutationRemove ==> t.IsAccepted == old(t.IsAccepted)
+//@   ensures  accept:  t.Mutation.Type != MutationRemove && !t.Mutation.IsAuto && old(t.IsAccepted) ==>
+//@                       (t.IsAccepted <==> (subset(*t.Mutation.cacheCalled, *t.cacheTargetStates) || (t.Mutation.IsCheck && (exists i int :: 0 <= i && i < len(*t.Mutation.cacheCalled) && t.cacheSchema[(*t.Mutation.cacheCalled)[i]].Multi))))
+//@   ensures  auto:    t.Mutation.Type != MutationRemove && t.Mutation.IsAuto && old(t.IsAccepted) ==>
+//@                       (t.IsAccepted <==> (exists x string :: mem(*t.Mutation.cacheCalled, x) && mem(*t.cacheTargetStates, x)))
+//@   loop 1 invariant multi: isMulti <==> (exists j int :: 0 <= j && j < idx1 && t.cacheSchema[called[j]].Multi)
